@@ -57,6 +57,10 @@ impl Report {
         }
     }
 
+    pub fn nontrivial_hashes(&self) -> Vec<u64> {
+        self.hashes.iter().cloned().collect()
+    }
+
     pub fn nontrivial_count(&self) -> usize {
         self.hashes.len()
     }
